@@ -224,10 +224,11 @@ Ambiguous(fs) == \/ \E i, j \in 1..Len(fs) : i < j /\ fs[i] \in {"link", "dl"} /
 \* around the link IS matched (its text only must be free of braces), takes the still unencoded
 \* link as text and is split at the link's "|": {{{p|[[a|p[https://x.y X]q]]}}} has the default
 \* value "[[a" (whatever X is; nothing to do with nowiki).  Over-approximated by: an argument
-\* reference with an external link below it, a link between them and no brace construct between.
+\* reference with an external link below it, a link between them and no brace construct around
+\* that external link between them (a sibling call is encoded a round earlier and does not help).
 ArgSwallows(fs, A) == \E i, k \in 1..Len(fs) : /\ i < k /\ fs[i] \in A /\ fs[k] = "ext"
                                               /\ \E j \in (i + 1)..(k - 1) : fs[j] \in {"link", "dl"}
-                                              /\ \A x \in (i + 1)..(k - 1) : fs[x] \in {"text", "link", "dl", "ext"}
+                                              /\ \A x \in (i + 1)..(k - 1) : fs[x] \in {"text", "link", "dl", "ext", "tsib"}
 \* the model predicts the whole output / only what the statement demands
 Exact(fs) == ~Ambiguous(fs) /\ ~ArgSwallows(fs, {"da", "ad"})
 \* must the quoted payload be in the output?  Where the model predicts the output: unless the
